@@ -13,8 +13,11 @@
 (* machine builds it:                                                      *)
 (*   P = [zip   : "ok" | "unreadable" | "save-error" | "save-panic",       *)
 (*        dups  : Seq(kind)      entry names occurring more than once,     *)
-(*        ct    : "ok" | "missing" | "ill-formed"   [Content_Types].xml,   *)
-(*        prels : "ok" | "missing" | "ill-formed"   _rels/.rels,           *)
+(*        ct    : "ok" | "missing" | "ill-formed" | "foreign"              *)
+(*                               [Content_Types].xml ("foreign": its root  *)
+(*                               is not the Types element of the OPC       *)
+(*                               content-types namespace),                 *)
+(*        prels : "ok" | "missing" | "ill-formed" | "foreign" _rels/.rels, *)
 (*        odoc  : Seq(BOOLEAN)   one per officeDocument relationship:      *)
 (*                               does its (internal) target exist?,        *)
 (*        parts : Seq([k, x, xml, wf, ct])]                                *)
@@ -23,8 +26,12 @@
 (*   wf  "ok" | "syntax" | "char" | "utf8" | "-" (not XML)                 *)
 (*   ct  "ovr" | "def" | "none" | "self" (the content-types stream)        *)
 (*                                                                         *)
-(* Abstract state  st = [pkg, hdr, ftr, tpl, by, taint]                    *)
+(* Abstract state  st = [pkg, hdr, ftr, tpl, org, by, taint]               *)
 (*   pkg    the package                                                    *)
+(*   org    origin of the document object: "new" (generated from scratch), *)
+(*          "opened" (read from a package: its parts are preserved and     *)
+(*          edits are spliced into them), "rendered" (document template),  *)
+(*          "text" (text template), "md" (Markdown)                        *)
 (*   hdr, ftr   header / footer kinds (default, first, even) defined       *)
 (*   tpl    the body holds an unfilled picture placeholder                 *)
 (*   by     part kind -> [op, a1, a2]: the call that last wrote it         *)
@@ -39,6 +46,27 @@ ImgDeclared == {"png", "jpeg", "gif"}                 \* the ImageFormat constan
 FmtClasses  == ImgDeclared \cup {"other", "unset"}    \* + a value outside the constants, + the zero value
 NameClasses == {"png", "jpg", "jpeg", "JPG", "gif", "noext", "dot", "multi", "cjk", "space", "meta", "mislead", "empty", "path", "ctrl"}
 HfKinds     == {"default", "first", "even"}
+\* how the package that Reopen reads was written by the producer between the save and the open (same package, other spelling):
+\*   asis   the bytes the library saved
+\*   abs    every internal relationship target as an absolute part name (/word/document.xml)
+\*   dot    ... with a leading dot segment (./word/document.xml)
+\*   updir  ... with a redundant parent segment (word/../word/document.xml, ../word/styles.xml)
+\*   qual   relationship parts and the content-types stream with a namespace prefix, single quotes, other attribute order
+\*   ovr    every part typed by an Override of the content-types stream (no extension default but the one of rels)
+\*   xmlser every XML part written by another serialiser (single quotes, > and " raw in attribute values, CDATA, other
+\*          empty-element form, white space in end tags, comments around the root's end tag): the same documents
+\*   min    the least a producer must write: no style definitions part, no document properties, parts typed by Override
+\*   order  archive entries stored uncompressed in another order, the content-types stream last
+\*   dirs   with explicit directory entries (word/, _rels/, ...), which are not parts
+\*   extra  with parts the library has no model of (thumbnail, custom properties, custom XML item with its own
+\*          relationship part, theme, font table), declared and related as Word does
+SpellClasses == {"asis", "abs", "dot", "updir", "qual", "ovr", "xmlser", "min", "order", "dirs", "extra"}
+\* how a style that the style manager already holds is edited in place:
+\*   name / run / para  its name / run properties / paragraph properties set from the text class (the definition grows)
+\*   strip  its properties dropped (the definition shrinks)     rebase  its basedOn / next chain re-pointed
+\*   readd  a new definition with the same id handed to AddStyle (replaces the old one)
+StyleEdits  == {"name", "run", "para", "strip", "rebase", "readd"}
+Origins     == {"new", "opened", "rendered", "text", "md"}
 
 \* ---- operation alphabet (by shape of the argument record) --------------------
 BodyTextOps == {"AddParagraph", "AddHeading", "AddFormattedParagraph", "AddFormattedText", "SetParaStyle", "SetParaFormat",
@@ -57,10 +85,12 @@ PlainOps    == {"AddPageBreak", "RestartNumbering", "RemoveFootnote", "SetFootno
                 "RemoveParagraphAt", "SetDifferentFirstPage", "UpdateStatistics", "GetDocumentProperties", "RemoveStyle",
                 "AddTemplateBits"}                                                                   \* [op]
 SaveOps     == {"Save", "ToBytes"}                                                                   \* [op]
-\* "AddStyle" [op, tc, via]; "PageSet" [op, which]; "Reopen" [op, via]; "Render" [op, tc, via, img];
-\* "RenderText" [op, tk, tc]; "ConvertMd" [op, mk, tc, via]
+\* "AddStyle" [op, tc, via]; "EditStyle" [op, tc, ed]; "PageSet" [op, which]; "Reopen" [op, via, sp];
+\* "Render" [op, tc, via, img, prep]; "RenderText" [op, tk, tc]; "ConvertMd" [op, mk, tc, via]
 \* Render.prep = TRUE: the template document is first given the placeholder content of AddTemplateBits (one step)
-OtherOps    == {"AddStyle", "PageSet", "Reopen", "Render", "RenderText", "ConvertMd"}
+\* Render.via: doc | legacy (template loaded from the document object) | file (the document is saved and the template is
+\*             loaded from that file: the renderer's own open)
+OtherOps    == {"AddStyle", "EditStyle", "PageSet", "Reopen", "Render", "RenderText", "ConvertMd"}
 AllOps      == TextOps \cup HfOps \cup ImageOps \cup PlainOps \cup SaveOps \cup OtherOps
 
 \* ---- helpers ------------------------------------------------------------------
@@ -73,7 +103,7 @@ Bag(s) == [x \in ToSet(s) |-> Cardinality({j \in 1..Len(s) : s[j] = x})]
 \* argument classes of a call as they appear in witness signatures
 A1(op) == IF Has(op, "tc") THEN op.tc ELSE IF Has(op, "fmt") THEN op.fmt ELSE IF Has(op, "which") THEN op.which ELSE "-"
 A2(op) == IF Has(op, "nm") THEN op.nm ELSE IF Has(op, "mk") THEN op.mk ELSE IF Has(op, "tk") THEN op.tk
-          ELSE IF Has(op, "kind") THEN op.kind ELSE "-"
+          ELSE IF Has(op, "kind") THEN op.kind ELSE IF Has(op, "ed") THEN op.ed ELSE IF Has(op, "sp") THEN op.sp ELSE "-"
 Writer(op) == [op |-> op.op, a1 |-> A1(op), a2 |-> A2(op)]
 NoWriter == [op |-> "New", a1 |-> "-", a2 |-> "-"]
 
@@ -99,7 +129,7 @@ InitPkg == [zip |-> "ok", dups |-> <<>>, ct |-> "ok", prels |-> "ok", odoc |-> <
                         XmlPart("document", "ovr"), XmlPart("styles", "ovr")>>]
 PartKinds == {"ctypes", "pkgrels", "docrels", "rels", "document", "styles", "header", "footer", "footnotes", "endnotes",
               "numbering", "settings", "core", "app", "media", "other"}
-InitSt == [pkg |-> InitPkg, hdr |-> {}, ftr |-> {}, tpl |-> FALSE, by |-> [k \in PartKinds |-> NoWriter], taint |-> FALSE]
+InitSt == [pkg |-> InitPkg, hdr |-> {}, ftr |-> {}, tpl |-> FALSE, org |-> "new", by |-> [k \in PartKinds |-> NoWriter], taint |-> FALSE]
 
 \* a singleton part is created once and then rewritten in place
 Ensure(P, k) == IF k \in KindsIn(P) THEN P ELSE [P EXCEPT !.parts = Append(@, XmlPart(k, "ovr"))]
@@ -122,6 +152,18 @@ ImgPart(op, design) ==
   THEN [k |-> "media", x |-> NameExt(op.nm), xml |-> FALSE, wf |-> "-", ct |-> IF NameExt(op.nm) = op.fmt THEN "def" ELSE "none"]
   ELSE MediaPart(ExtOf(op.fmt))
 
+\* the parts of spelling "extra": a thumbnail (by extension default), custom properties, theme, font table, the property part
+\* of a custom XML item (by override), the custom XML item itself (default xml) and its relationship part
+OtherPart(x, isxml, ct) == [k |-> "other", x |-> x, xml |-> isxml, wf |-> IF isxml THEN "ok" ELSE "-", ct |-> ct]
+ExtraParts == <<OtherPart("jpeg", FALSE, "def"), OtherPart("xml", TRUE, "ovr"), OtherPart("xml", TRUE, "ovr"), OtherPart("xml", TRUE, "ovr"),
+                OtherPart("xml", TRUE, "ovr"), OtherPart("xml", TRUE, "def"), RelsPart("rels")>>
+\* another producer's spelling of a package never changes which parts it has, except that "extra" adds its parts (once)
+\* and "min" leaves the document properties out (the style definitions it leaves out as well are written again with the
+\* document: the package of the state is what a save of the document object gives)
+NotProps(q) == q.k \notin {"core", "app"}
+Respelt(P, sp) == IF sp = "extra" /\ "other" \notin KindsIn(P) THEN [P EXCEPT !.parts = @ \o ExtraParts]
+                  ELSE IF sp = "min" THEN [P EXCEPT !.parts = SelectSeq(@, NotProps)] ELSE P
+
 \* singleton XML parts a call creates if absent (besides the main part, which every call may rewrite)
 Creates(op) ==
   CASE op.op \in ListOps -> {"numbering"}
@@ -138,6 +180,8 @@ Writes(st, op) ==
   \cup (IF op.op \in FooterOps THEN {"footer", "docrels", "ctypes"} ELSE {})
   \cup (IF op.op \in ImageOps \cup {"AddImageText"} THEN {"media", "document", "docrels", "ctypes"} ELSE {})
   \cup (IF op.op \in {"AddStyle", "RemoveStyle", "SetTOCStyle", "TableStyle"} THEN {"styles", "document"} ELSE {})
+  \cup (IF op.op = "EditStyle" THEN {"styles"} ELSE {})
+  \cup (IF op.op = "Reopen" /\ op.sp = "extra" THEN {"other", "rels"} ELSE {})
   \cup (IF op.op \in {"Render", "Reopen"} THEN KindsIn(st.pkg) \cup {"media"} ELSE {})
   \cup (IF op.op = "Render" /\ op.prep THEN {"header", "footer", "document", "docrels", "ctypes"} ELSE {})
   \cup (IF op.op \in {"RenderText", "ConvertMd"} THEN PartKinds ELSE {})
@@ -168,6 +212,7 @@ ApplyPkg(st, op, design) ==
     [] op.op = "RenderText" ->
          IF op.tk \in {"image", "all"} THEN AddPart(FreshDoc, MediaPart("png")) ELSE FreshDoc
     [] op.op = "ConvertMd" -> FreshDoc
+    [] op.op = "Reopen" -> Respelt(P, op.sp)
     [] OTHER -> EnsureAll(P, Creates(op))
 
 \* does the call, given the state, count as successful according to its documentation?
@@ -176,6 +221,15 @@ Ret(st, op) ==
   IF op.op = "AddCellImage" /\ op.fmt = "other" THEN "err"
   ELSE IF op.op = "AddImage" /\ op.via = "file" /\ op.fmt = "other" THEN "err"
   ELSE "ok"
+
+\* the origin of the document object after a successful call (ConvertFile writes a file, which the behaviour continues on
+\* by opening it; rendering a template loaded from a file opens it as well but hands out a rendered clone)
+OrgAfter(st, op) ==
+  CASE op.op = "Reopen" -> "opened"
+    [] op.op = "Render" -> "rendered"
+    [] op.op = "RenderText" -> "text"
+    [] op.op = "ConvertMd" -> IF op.via = "file" THEN "opened" ELSE "md"
+    [] OTHER -> st.org
 
 ApplyD1(st, op, design) ==
   IF Ret(st, op) # "ok" THEN [st EXCEPT !.taint = TRUE]
@@ -188,6 +242,7 @@ ApplyD1(st, op, design) ==
                 ELSE IF op.op \in {"RenderText", "ConvertMd"} THEN {} ELSE st.ftr,
         tpl |-> IF op.op = "AddTemplateBits" THEN TRUE
                 ELSE IF op.op \in {"RenderText", "ConvertMd"} \/ (op.op = "Render" /\ op.img \in ImgDeclared) THEN FALSE ELSE st.tpl,
+        org |-> OrgAfter(st, op),
         by  |-> [k \in PartKinds |-> IF k \in Writes(st, op) THEN Writer(op) ELSE st.by[k]],
         taint |-> st.taint]
 
